@@ -575,7 +575,17 @@ def dtab_mapref(ctx, prog):
 
 dtab_mapref.rule_id = "C01.DTAB-mapref"
 
-RULES = [sib_children, pdom_sched, dom_stamp, latch, depend_on_cutoff, dtab_mapref]
+def dtab_staleness(ctx, prog):
+    R = "C01.DTAB-staleness"
+    ctx.rule(R, "is_stale per kind (Var: set_at > recomputed_at; Constant: never computed; map-like/bind: never computed "
+                "|| a child changed since; Expert: also force_stale; invalid: false), edge_is_stale, needs_to_be_computed")
+    from .shared import staleness_tables
+    staleness_tables(ctx, prog, R)
+
+
+dtab_staleness.rule_id = "C01.DTAB-staleness"
+
+RULES = [sib_children, pdom_sched, dom_stamp, latch, depend_on_cutoff, dtab_mapref, dtab_staleness]
 
 # control signature of the bookkeeping effects this property depends on (rules/ctrlsig.py)
 from .ctrlsig import make_rule as _ctrl_rule  # noqa: E402
